@@ -75,7 +75,7 @@ def run(tier: str, seed: int) -> int:
         p = progs[j]
         if out.get("crash"):
             raise RuntimeError("replay worker crashed:\n" + out["crash"])
-        desc = f"u{chr(39) * p['m']} = {jets.pretty(p['polys'], p['m'], p['d'])}, inits={p['inits']}, t0={p['t0']}"
+        desc = f"u{chr(39) * p['m']} = {jets.pretty(p['polys'], p['m'], p['d'])}, inits=[{', '.join('[' + ', '.join(str(x) for x in row) + ']' for row in p['inits'])}], t0={p['t0']}"
         rep.traces += 1
         n_tdep += int(p["tdep"])
         n_auto += int(not p["tdep"])
@@ -103,7 +103,7 @@ def run(tier: str, seed: int) -> int:
     rep.extra["instances_dropped_for_32bit_overflow"] = len(dropped)
     rep.extra["programs_compared_on_a_shorter_prefix_for_32bit_range"] = short
     rep.assumptions = [
-        "polynomial vector fields only (degree <= 2 in (u,u'), <= 3 in t, coefficients in {-1,0,1,2}, integer initial values and t0); non-polynomial smooth fields are not modelled",
+        "polynomial vector fields only (degree <= 2 in (u,u'), <= 3 in t, coefficients in {-1,0,1,2}, integer or half-integer initial values and t0, k <= 6 (thorough: 7), d <= 2 (thorough: 3)); non-polynomial smooth fields are not modelled",
         "derivatives beyond the 32-bit range of TLC are not compared (the specification exports the exact prefix)",
         "jetexpand_ode_doubling_unroll is documented as first-order only (asserts a single initial value) and jetexpand_residual as flat-array only (pytree support is a TODO in its source): those combinations are not run; both carry an 'experimental' warning but are part of the property",
         "the residual-based routine is run with its default Gauss-Newton solver on residual_from_ode(ode).jet_lift(num-1) and on the implicit form a*u^(m) - F = 0, num <= 4",
@@ -119,6 +119,8 @@ def replay(rep_obj) -> int:
     if "polys" not in r:
         return 1
     p = dict(r["program"])
+    p["inits"] = [[jets.F(x) for x in row] for row in p["inits"]]
+    p["t0"] = jets.F(p["t0"])
     p["polys"] = [[(c, tuple(e)) for c, e in comp] for comp in r["polys"]]
     insts = [jets.ode_tla(p, implicit=False), jets.ode_tla(p, implicit=True)]
     res, _d, _s, _g, fail = exact.eval_instances("JetPoly", insts, invariants=["CheckAndPrint"], batch=2)
